@@ -256,10 +256,14 @@ class SymConv:
         if op == "app" and a[0] == "pow" and len(a) == 3 and a[2].op == "num" and a[2].args[0].denominator == 1 and abs(a[2].args[0]) <= 8:
             return c(a[1]) ** int(a[2].args[0])
         if op in ("sym", "select", "app", "trunc", "idiv", "imod", "ite", "ptoi"):
-            if op == "app":
-                # function application: atom keyed by converted args so that equal args give the same atom
-                key = T("app", (a[0],) + tuple(a[1:]), t.sort)
-                return self.atom(key)
+            if op == "app" and t.sort == "R" and all(isinstance(x, T) and x.sort in ("R", "I") for x in a[1:]):
+                # uninterpreted real function: arguments in canonical rational-function form, so that
+                # algebraically equal arguments give the same application
+                try:
+                    args = [sympy.cancel(sympy.together(c(x))) for x in a[1:]]
+                    return sympy.Function("uf_" + a[0])(*args)
+                except ValueError:
+                    return self.atom(t)
             return self.atom(t)
         raise ValueError("sympy: op %s not a field term" % op)
 
